@@ -250,3 +250,19 @@ func TestDeterministicReplay(t *testing.T) {
 	e.Explore(nil)
 	t.Logf("executions %d stats %+v", n, e.Stats)
 }
+
+func TestBufferedFullWithParkedReceiver(t *testing.T) {
+	// a receiver parked on a buffered channel whose buffer is refilled before
+	// it runs must not make a second sender think it can hand off directly
+	body := func(out *string) {
+		c := rt.MakeChan[int](1)
+		done := rt.MakeChan[int](3)
+		rt.Go(func() { v := c.Recv(); w := c.Recv(); done.Send(v*10 + w) })
+		rt.Go(func() { c.Send(1); done.Send(0) })
+		rt.Go(func() { c.Send(2); done.Send(0) })
+		a, b, d := done.Recv(), done.Recv(), done.Recv()
+		*out = fmt.Sprint(a + b + d)
+	}
+	got, _ := outcomes(t, 3, false, body)
+	expect(t, "bufrv", got, "12", "21")
+}
